@@ -192,6 +192,31 @@ def loc_sound(d, errors):
     return True
 
 
+def loc_typed(t, d, loc, rule):
+    """type-directed reading of a location: below an object type every step is an external name (alias) of a declared
+    field or a key of the datum; a `missing property` names a declared alias"""
+    k = t.kind
+    if k in ("newtype", "optional", "cint", "cfloat", "cstr", "clist", "cdict") and t.kids and k not in ("clist", "cdict"):
+        return loc_typed(t.kids[-1] if k != "optional" else t.kids[0], d, loc, rule) if k in ("newtype", "optional") or getattr(t, "merged", False) else True
+    if k == "union": return any(loc_typed(a, d, loc, rule) for a in t.kids)
+    if not loc: return True
+    step, rest = loc[0], loc[1:]
+    if k in ("list", "set", "frozenset", "vtuple", "clist"):
+        return isinstance(step, int) and isinstance(d, list) and step < len(d) and loc_typed(t.kids[0], d[step], rest, rule)
+    if k == "tuple":
+        return isinstance(step, int) and isinstance(d, list) and step < min(len(d), len(t.kids)) and loc_typed(t.kids[step], d[step], rest, rule)
+    if k in ("mapping", "cdict"):
+        return isinstance(d, dict) and step in d and loc_typed(t.kids[-1], d[step], rest, rule)
+    if k in ("dataclass", "namedtuple", "typeddict"):
+        if not isinstance(d, dict): return False
+        for f in t.fields:
+            if f["alias"] == step:
+                if step not in d: return not rest and rule[0] in ("missing", "missing_required_by")
+                return loc_typed(f["ty"], d[step], rest, rule)
+        return step in d and not rest          # an unexpected property
+    return True
+
+
 # ------------------------------------------------------------------------------------------------------
 KINDS_BY_PROP = {
     "C13": ["union", "union", "union", "optional", "list", "tuple", "dataclass", "mapping", "none", "bool", "int", "float", "str",
@@ -207,6 +232,7 @@ def cons_names(t):
 def gen_cases(prop, seed, n_types, per):
     rnd = random.Random(seed * 1000003 + hash(prop) % 997 if False else seed * 1000003 + sum(map(ord, prop)))
     pool = Pool(); g = Gen(rnd, pool, KINDS_BY_PROP.get(prop))
+    if prop in ("C02", "C03", "C08") and not KINDS_BY_PROP.get(prop): g.kinds = g.kinds + ["depreq"]
     types = []
     for _ in range(n_types):
         t = g.ty(3)
@@ -220,7 +246,10 @@ def gen_cases(prop, seed, n_types, per):
         for _ in range(per):
             d = g.valid(t)
             mutate_p = {"C02": 0.9, "C03": 0.6}.get(prop, 0.5)
-            if rnd.random() < mutate_p: d = g.mutate(d)
+            if rnd.random() < mutate_p:
+                d = g.mutate(d)
+                if prop == "C02":                     # k >= 1 simultaneous violations at distinct paths
+                    for _ in range(rnd.randint(0, 2)): d = g.mutate(d)
             coerce = (prop == "C14") or (prop == "C03" and rnd.random() < 0.4)
             if coerce and rnd.random() < 0.8: d = cmutate(rnd, d)
             if prop == "C03" and rnd.random() < 0.5:
@@ -258,7 +287,7 @@ def evaluate(prop, t, tp, d, o, ns, mo):
     im = run_impl(tp, d, o, keep=keep)
     # outside the model's datum type: instances of subclasses of the JSON classes; dicts with non-string keys under a
     # uniqueness test (`to_hashable` sorts the items: whether that works depends on the keys' classes)
-    modelled = not has_other(d, SUBCLASSED) and not ('"dn"' in json.dumps(dproto(d)) and ({"clist", "set", "frozenset"} & t.features()))
+    modelled = "depreq" not in t.features() and not has_other(d, SUBCLASSED) and not ('"dn"' in json.dumps(dproto(d)) and ({"clist", "set", "frozenset"} & t.features()))
     m = canon_model(mo["model"]) if "model" in mo else None
     oos = isinstance(m, dict) and str(m.get("crash", "")).startswith("ModelScope")
     k_ok = None if (m is None or oos or not modelled) else same(im, m)
@@ -267,7 +296,7 @@ def evaluate(prop, t, tp, d, o, ns, mo):
     jsonish = is_json(instantiate(d)) if not has_other(d) else False
     ik = kind_of(im)
     if prop == "C01":
-        if jsonish and "conforms" in mo and ik in ("ok", "invalid"):
+        if jsonish and modelled and "conforms" in mo and ik in ("ok", "invalid"):
             if (ik == "ok") != mo["conforms"]:
                 fails.append("accepted-but-not-conforming" if ik == "ok" else "rejected-but-conforming")
         if jsonish and ik == "ok" and mo.get("image") is not None and sc.get("json"):
@@ -275,10 +304,13 @@ def evaluate(prop, t, tp, d, o, ns, mo):
         info["in_scope"] = bool(sc.get("acc") and sc.get("wf") and jsonish)
     elif prop == "C02":
         if ik == "invalid" and im["invalid"] is not None:
-            if mo.get("violations") is not None:
+            if mo.get("violations") is not None and modelled:
                 info["in_scope"] = True
                 if canon_errors(mo["violations"]) != im["invalid"]: fails.append("errors-differ-from-declared-violations")
             if jsonish and not loc_sound(instantiate(d), im["invalid"]): fails.append("loc-outside-the-datum")
+            if jsonish:
+                bad = [e for e in im["invalid"] if not loc_typed(t, instantiate(d), e[0], e[1])]
+                if bad: fails.append("loc-is-not-a-path-of-external-names"); info["bad_loc"] = bad[:3]
             im2 = run_impl(tp, d, o)
             if im2 != im: fails.append("errors-not-deterministic")
             locs = [json.dumps(e) for e in im["invalid"]]
